@@ -115,6 +115,20 @@ def run(ctx):
                       ["+p:" + vlib.hx(b"refs/tags"), "-p:" + vlib.hx(b"refs/tags/foo"), "+g:" + vlib.hx(g.encode())])]
             for cli, toks in forms:
                 one(refs, defs, cfg, cli, toks, 0)
+        # the shorthand options are fixed prefix / exact-name rules, whatever gitconfig adds to the built-in groups of the
+        # same names (refgroup.tags.exclude etc. only change the tallies of those groups)
+        aug = [("tags", [("x", b"refs/tags/v1")]), ("tags", [("i", b"refs/foo")]), ("branches", [("i", b"refs/remotes")]),
+               ("branches", [("x", b"refs/heads/feature")]), ("remotes", [("x", b"refs/remotes/up")]), ("notes", [("i", b"refs/heads")]),
+               ("stash", [("i", b"refs/stash/x")]), ("tags", [("X", ("&", RC.lit_re(b"refs/tags/release-"), RC.ANY))])]
+        for sym, ents in aug:
+            defs = [(sym, ents)]
+            cfg = RC.defs_to_cfg(defs)
+            for f in sorted(SC.FLAG_OPTS):
+                if not quick or sym in f or rng.random() < 0.2:
+                    pol, kind, pat = SC.FLAG_OPTS[f]
+                    tok = ("+" if pol else "-") + ("r:" + RC.re_enc(RC.lit_re(pat)) if kind == "exact" else "p:" + vlib.hx(pat))
+                    one(sorted(RC.REFPOOL), defs, cfg, [f], [tok], 0)
+                    one(sorted(RC.REFPOOL), defs, cfg, ["--include", "refs/foo", f], ["+p:" + vlib.hx(b"refs/foo"), tok], 0)
         # exhaustive short sequences over a fixed pool
         pool = [(["--branches"], "+p:" + vlib.hx(b"refs/heads")), (["--no-tags"], "-p:" + vlib.hx(b"refs/tags")),
                 (["--include", "refs/heads/feature"], "+p:" + vlib.hx(b"refs/heads/feature")),
